@@ -147,3 +147,11 @@ Proof. vm_compute. reflexivity. Qed.
 
 Lemma gen_relroute_fresh : acc_of relroute_name gen_ctx_accessors = AccFresh.
 Proof. vm_compute. reflexivity. Qed.
+
+(** * Round 3 (seeded change C20-l): the routing sources name no number.
+    route.go, router.go, trie.go, mux.go, service_set.go, host_mux.go and
+    package trie contain no integer literal of 8 or more: nothing bounds the
+    depth of a route or of a request path.  (A new one makes the check run
+    depths on both sides of it.) *)
+Lemma gen_aries_no_depth_bound : gen_aries_int_literals = [].
+Proof. vm_compute. reflexivity. Qed.
